@@ -1,5 +1,6 @@
 SPECIFICATION Spec
 CONSTANTS Devs = {}
-          Cases <- MShape4
+          Cases <- MCSel
+          Family = "MShape4"
 INVARIANTS TypeOK VisitedSafe VisitedExact DepthShortest FetchedExact LocalExact HandlerCidRight
            HandlerCallsRight ProvidedExact ResultRight NoHandlerCrash
